@@ -144,14 +144,32 @@ def gen(out):
                        "Self::normalize_integer_epoch(u as i128)", "else if let Some(f) = n.as_f64()",
                        "let secs = f.floor() as i64;", "serde_json::Value::String(s) =>",
                        "Self::parse_str_to_epoch_seconds(s, kind)", "Time field must be a number or string"])
-    # ---- the STORE text path: tokenizer pre-validation and brace matching that ignores JSON strings
+    # ---- float seconds: floored; is the value range-checked before the saturating cast?
+    m = re.search(r"else if let Some\(f\) = n\.as_f64\(\) \{(.*?)let secs = f\.floor\(\) as i64;", src, re.S)
+    if not m:
+        raise Missing(f"{rel}: float branch of normalize_json_value")
+    guard = re.sub(r"//[^\n]*", "", m.group(1)).strip()
+    if guard == "":
+        checked = False
+    elif re.fullmatch(r"if !\(f >= -9_223_372_036_854_775_808\.0 && f < 9_223_372_036_854_775_808\.0\) \{\s*return Err\(.*?\);\s*\}", guard, re.S):
+        checked = True
+    else:
+        raise Missing(f"{rel}: unrecognised code before `let secs = f.floor() as i64;`: {guard!r}")
+    out.append("(* true when a float time outside [-2^63, 2^63) is rejected instead of saturating *)")
+    out.append(f"Definition time_float_range_checked : bool := {'true' if checked else 'false'}.")
+    # ---- the STORE text path: tokenizer pre-validation and brace matching
     rel = "src/command/parser/commands/store.rs"
     src = read(rel)
-    ordered(src, rel, ["rule balanced_braces()", '"{" (balanced_braces() / (!"}" [_]))* "}"', "json:json_block()",
-                       "sonic_rs::from_str(json_str)"])
-    brace_aware = 0
-    out.append("(* 1 when the STORE grammar matches braces without looking at JSON string literals *)")
-    out.append(f"Definition store_brace_scan_ignores_strings : bool := {'true' if brace_aware == 0 else 'false'}.")
+    ordered(src, rel, ["rule balanced_braces()", "json:json_block()", "sonic_rs::from_str(json_str)"])
+    if '"{" (balanced_braces() / (!"}" [_]))* "}"' in src:
+        ignores = True
+    elif '"{" (balanced_braces() / json_string() / (!"}" [_]))* "}"' in src and \
+            'rule json_string() = "\\"" ("\\\\" [_] / (![\'"\' | \'\\\\\'] [_]))* "\\""' in src:
+        ignores = False
+    else:
+        raise Missing(f"{rel}: unrecognised balanced_braces rule")
+    out.append("(* true when the STORE grammar matches braces without looking at JSON string literals *)")
+    out.append(f"Definition store_brace_scan_ignores_strings : bool := {'true' if ignores else 'false'}.")
     rel = "src/command/parser/tokenizer.rs"
     src = read(rel)
     m = re.search(r"((?:'[^']+'\s*\|\s*)*'[^']+')\s*=>\s*\{\s*tokens\.push\(Token::Symbol\(chars\.next\(\)\.unwrap\(\)\)\);", src)
